@@ -6,13 +6,13 @@ ALL = ["C%02d" % i for i in range(1, 21)]
 
 PBT = "property-based testing (proptest): "
 CHECKS = {
-    "C01": dict(engine="core(sched+api)", technique=PBT + "generated multi-threaded programs + generated schedules at hook-site granularity (stateful model-based, baton scheduler); oracle: exactly-once multiset equality with the reference model and delivery deadlines per cycle/flush",
+    "C01": dict(engine="core(sched+api)", technique=PBT + "generated multi-threaded programs + generated schedules at hook-site granularity (stateful model-based, baton scheduler); oracle: exactly-once multiset equality with the reference model and delivery deadlines per cycle/flush; plus a constructed overlap of two real flush() calls (reporter parks the first one) and, in the thorough tier, a coverage-guided libFuzzer campaign over (program, schedule) bytes with the same oracles",
                 text="Exploration: 30k hooked-scheduler cases + 18k public-API cases per quick run (x20 in the thorough tier), each compared with a reference model (exactly once, nothing invented, delivered by the first complete cycle / by flush()). Schedules are sampled at push/drain/empty-pop granularity, so cross-thread drain races and thread-exit races are reached deterministically; absence is not established.",
                 note="Trusts the baton scheduler (one vthread at a time), the hook sites as the only relevant interleaving points (rtrb treated as a linearizable queue), and the harness's sink reporter. The free-running background thread's latency ('about one interval') is not decided here."),
     "C02": dict(engine="core(api)", technique=PBT + "generated span-tree programs; oracle: delivered (trace id, parent id) multiset per span name equals the reference model's tree, ids non-zero and distinct",
                 text="Exploration: 72k generated programs per quick run in both collector configurations (640k thorough); every delivered record is matched by unique name to a model span and its trace/parent ids are compared with the model tree.",
                 note="Parent ids are resolved through the parent's delivered record (fallback: id reported by from_span). Id collisions of probability 2^-32 are not reachable."),
-    "C03": dict(engine="core(sched+api)", technique=PBT + "generated programs + schedules in cancelable mode; oracle: one report() batch per trace containing root and must-set (spans finished before the root by baton happens-before)",
+    "C03": dict(engine="core(sched+api)", technique=PBT + "generated programs + schedules in cancelable mode; oracle: one report() batch per trace containing root and must-set (spans finished before the root by baton happens-before); thorough tier adds the libFuzzer (program, schedule) campaign",
                 text="Exploration: 45k scheduled + 27k API cases per quick run; batch structure of every trace checked against must/may sets derived from real happens-before. The known inconsistent-cut finding is recognised by an exact structural predicate and everything else is still checked.",
                 note="Same trusted base as C01. Known findings are listed in known_findings.json and matched by exact signature."),
     "C04": dict(engine="core(sched+api)", technique=PBT + "generated cancel histories incl. ring-full fault injection; oracle: no record of a cancelled trace in any batch, other traces as C03, no-op cancels metamorphic (delivery as if absent)",
